@@ -11,7 +11,11 @@ rsync -a --exclude /.git /repo/ "$S/repo/" || exit 2
 rm -rf "$S/repo/.git"
 cd /verif
 for id in "$@"; do
+  # the evidence file of /verif must describe runs against /repo itself: keep it aside
+  cp evidence/$id.json "$S/evidence_$id.json" 2>/dev/null
   VERIF_REPO="$S/repo" ./check "$id" quick > /tmp/seed_$id.out 2>&1
-  echo "== $id exit=$? : $(grep -c '^VIOLATION' /tmp/seed_$id.out) violation lines; $(tail -1 /tmp/seed_$id.out | cut -c1-160)"
+  rc=$?
+  cp "$S/evidence_$id.json" evidence/$id.json 2>/dev/null
+  echo "== $id exit=$rc : $(grep -c '^VIOLATION' /tmp/seed_$id.out) violation lines; $(tail -1 /tmp/seed_$id.out | cut -c1-160)"
   grep '^VIOLATION' /tmp/seed_$id.out | head -2 | cut -c1-330
 done
